@@ -24,6 +24,7 @@ import (
 
 	"github.com/bloxapp/ssv/message/validation"
 	"github.com/bloxapp/ssv/network/commons"
+	"github.com/bloxapp/ssv/operator/duties/dutystore"
 	"github.com/bloxapp/ssv/protocol/v2/ssv/queue"
 	ssvtypes "github.com/bloxapp/ssv/protocol/v2/types"
 	"github.com/bloxapp/ssv/zz_verif/lib/hx"
@@ -56,8 +57,10 @@ type Case struct {
 	counts map[sigKey]map[roundKey]int
 	props  map[sigKey]map[roundKey][]byte
 	Label  string
-	Honest int  // C10: 1 = the next message was emitted by a correct operator (must not be rejected), 2 = … in a fault-free in-order timely run (must be accepted)
-	Exempt bool // the case touches the out-of-scope empty-committee validator: panics are compared with the model, not flagged
+	DS     *dutystore.Store // the duty store of THIS case's validator when it is not the world's (handler-driven scenarios)
+	dsKeys [][3]uint64      // proposer entries put by a replayed `duties` line
+	Honest int              // C10: 1 = the next message was emitted by a correct operator (must not be rejected), 2 = … in a fault-free in-order timely run (must be accepted)
+	Exempt bool             // the case touches the out-of-scope empty-committee validator: panics are compared with the model, not flagged
 }
 
 func NewCase(run *hx.Run, w *World, signed bool, label string) *Case {
@@ -67,6 +70,74 @@ func NewCase(run *hx.Run, w *World, signed bool, label string) *Case {
 	c.Lines = append(c.Lines, l)
 	run.Emit(l, "ok")
 	return c
+}
+
+// NewCaseWithStore: a fresh validator that shares `ds` (e.g. with real duty handlers). The `reset` line carries no
+// duties; `duties` ops announce the store's contents to the model whenever they are sampled.
+func NewCaseWithStore(run *hx.Run, w *World, ds *dutystore.Store, label string) *Case {
+	c := &Case{run: run, W: w, DS: ds, Label: label,
+		last: map[sigKey][2]uint64{}, counts: map[sigKey]map[roundKey]int{}, props: map[sigKey]map[roundKey][]byte{}}
+	c.MV = validation.NewMessageValidator(w.NetCfg, validation.WithNodeStorage(w.NS), validation.WithDutyStore(ds))
+	b := w.NetCfg.Beacon
+	l := fmt.Sprintf("reset w=%d fork=0 own=1 g=%d d=%d spe=%d epp=%d perm=%d pd=- sd=-", w.N, b.MinGenesisTime(),
+		uint64(b.SlotDurationSec().Seconds()), b.SlotsPerEpoch(), b.EpochsPerSyncCommitteePeriod(), uint64(w.NetCfg.PermissionlessActivationEpoch))
+	c.Lines = append(c.Lines, l)
+	run.Emit(l, "ok")
+	return c
+}
+
+// AnnounceDuties samples the case's duty store at the given proposer slots / sync periods and emits the `duties` op.
+func (c *Case) AnnounceDuties(slots []uint64, periods []uint64) {
+	var pd, sd []string
+	for _, s := range slots {
+		e := s / 32
+		if c.DS.Proposer.ValidatorDuty(phase0.Epoch(e), phase0.Slot(s), valIndex) != nil {
+			pd = append(pd, fmt.Sprintf("%d:%d:%d", e, s, valIndex))
+		}
+	}
+	for _, p := range periods {
+		if c.DS.SyncCommittee.Duty(p, valIndex) != nil {
+			sd = append(sd, fmt.Sprintf("%d:%d", p, valIndex))
+		}
+	}
+	j := func(x []string) string {
+		if len(x) == 0 {
+			return "-"
+		}
+		return strings.Join(x, ",")
+	}
+	c.emit("duties pd="+j(pd)+" sd="+j(sd), "ok")
+}
+
+// ReplayDuties makes the case's own duty store contain exactly the entries of a `duties` line.
+func (c *Case) ReplayDuties(ws []string) {
+	if c.DS == nil {
+		return
+	}
+	for _, k := range c.dsKeys {
+		c.DS.Proposer.ResetEpoch(phase0.Epoch(k[0]))
+		c.DS.SyncCommittee.Reset(k[0])
+	}
+	c.dsKeys = nil
+	pd, _ := kvOf(ws, "pd")
+	sd, _ := kvOf(ws, "sd")
+	if pd != "-" && pd != "" {
+		for _, t := range strings.Split(pd, ",") {
+			var e, s, i uint64
+			fmt.Sscanf(t, "%d:%d:%d", &e, &s, &i)
+			c.DS.Proposer.Add(phase0.Epoch(e), phase0.Slot(s), phase0.ValidatorIndex(i), &eth2apiv1.ProposerDuty{Slot: phase0.Slot(s), ValidatorIndex: phase0.ValidatorIndex(i)}, true)
+			c.dsKeys = append(c.dsKeys, [3]uint64{e, s, i})
+		}
+	}
+	if sd != "-" && sd != "" {
+		for _, t := range strings.Split(sd, ",") {
+			var p, i uint64
+			fmt.Sscanf(t, "%d:%d", &p, &i)
+			c.DS.SyncCommittee.Add(p, phase0.ValidatorIndex(i), &eth2apiv1.SyncCommitteeDuty{ValidatorIndex: phase0.ValidatorIndex(i)}, true)
+			c.dsKeys = append(c.dsKeys, [3]uint64{p, 0, i})
+		}
+	}
+	c.emit(strings.Join(ws, " "), "ok")
 }
 
 func (c *Case) emit(op, obs string) {
